@@ -7,10 +7,14 @@ EXTENDS Integers, FiniteSets
 AllDTypes == {"float64", "float32", "int64", "int32"}
 IsInt(d) == d \in {"int64", "int32"}
 
-(* D: function operand -> dtype; data: set of data operands.  Bug = "dtype_any" is the wrong *)
-(* rule "single as soon as any operand is single" (negative control).                        *)
-ResultDType(data, D, Bug) ==
+(* D: function operand -> dtype; data: set of data operands; Z: the operands handed over as 0-d   *)
+(* variables (the shape of an operand must not matter).  Bug = "dtype_any" is the wrong rule      *)
+(* "single as soon as any operand is single"; Bug = "scalar_param" the wrong rule "a 0-d operand  *)
+(* is a parameter and does not count" (negative controls).                                        *)
+ResultDTypeZ(data, D, Z, Bug) ==
+    LET eff == IF Bug = "scalar_param" THEN data \ Z ELSE data IN
     IF Bug = "dtype_any"
     THEN IF \E a \in DOMAIN D : D[a] = "float32" THEN "float32" ELSE "float64"
-    ELSE IF data # {} /\ \A a \in data : D[a] = "float32" THEN "float32" ELSE "float64"
+    ELSE IF eff # {} /\ \A a \in eff : D[a] = "float32" THEN "float32" ELSE "float64"
+ResultDType(data, D, Bug) == ResultDTypeZ(data, D, {}, Bug)
 =============================================================================
